@@ -68,6 +68,8 @@ type Query { a: Int }`, `type Query { a: Int } """`, `type Query { "" a: Int }`,
 	`directive @c(z: Int @b) on INPUT_FIELD_DEFINITION directive @b(y: Int @c) on INPUT_FIELD_DEFINITION directive @a(x: Int @b, y: Int @c, z: Int @b) on INPUT_FIELD_DEFINITION type Query { a: Int }`,
 	`directive @a(x: Int @b, y: Int @b) on INPUT_FIELD_DEFINITION directive @b on INPUT_FIELD_DEFINITION | ARGUMENT_DEFINITION type Query { a: Int }`,
 	`input A { a: A = {} b: Int } type Query { f(x: A): Int }`, `input A { a: [A] = [{}] } type Query { f(x: A): Int g(x: [A!] = [{}]): Int }`,
+	`input A { a: A = {a: null} b: Int } type Query { f(x: A): Int }`, `input A { a: [A] = [{a: null}] } type Query { f(x: A): Int }`, `input A { a: A = {a: {a: null}} } type Query { f(x: A = {}): Int }`,
+	`input A { b: B = {a: null} } input B { a: A = {b: null} } type Query { f(x: A!, y: B): Int }`,
 	`input A { b: B = {} } input B { a: A = {} } type Query { f(x: A!, y: B): Int }`, `input A { a: A } type Query { f(x: A = {a: {a: {}}}): Int }`,
 	`type Mutation { a: Int }`, `type Subscription { a: Int }`, `enum Query { A }`, `input Query { a: Int }`, `scalar Query`, `interface Query { a: Int }`, `union Query = Query`,
 	"type Query { a: Int }" + "\n##next-load##\n" + "type Query { b: Int }",
@@ -81,6 +83,8 @@ type Query { a: Int }`, `type Query { a: Int } """`, `type Query { "" a: Int }`,
 }
 
 var adversarial = []string{
+	`{la{...F} lb{...F}} fragment F on Lister {items(first: 3)}`, `{lb{...F} la{...F}} fragment F on Lister {items(first: 3) sub{items}}`,
+	`{listers{items(first: 1) sub{items(first: 2)}}}`, `{la{... on Lister{items(first: 1)}} listers{... on Lister{items(first: 1)}}}`, `{la{items(after: "x", first: 1, tags: [])} lb{items(after: "x")}}`,
 	`{hidden}`, `{private}`, `{obj{hidden private}}`, `{a: hidden b: private objs{hidden}}`,
 	`{ items: strs items: objs { str } }`, `{ x: objs { str } x: anys { __typename } }`, `{ x: strs x: anys { __typename } }`, `{obj{ l: strs l: objs {num} l: anys {__typename}}}`,
 	`{inp(in: {zzz: ["x"]})}`, `{inp(in: {zzz: [[1], {a: [2]}]})}`, `{inp(in: {c: {zzz: [1, 2]}})}`, `{inp(in: {b: [["x"]], zzz: {y: [1]}})}`,
@@ -383,6 +387,7 @@ func genSchemaRequest(t *rapid.T) string {
 	}
 	fields := []fdef{{"str", nil, false}, {"num", nil, false}, {"when", nil, false}, {"strs", nil, false}, {"hidden", nil, false}, {"__typename", nil, false},
 		{"obj", nil, true}, {"objs", nil, true}, {"any", nil, true}, {"anys", nil, true}, {"named", nil, true},
+		{"la", nil, true}, {"lb", nil, true}, {"listers", nil, true}, {"sub", nil, true}, {"items", []string{"first", "after", "tags"}, false}, {"...LF", nil, false},
 		{"echo", []string{"s"}, false}, {"pick", []string{"s", "b"}, false}, {"flip", []string{"b"}, false}, {"add", []string{"i", "j"}, false},
 		{"sum", []string{"l"}, false}, {"inp", []string{"in"}, false}, {"col", []string{"c"}, false}, {"fail", []string{"s"}, false}, {"big", []string{"x", "y", "t", "id"}, false}}
 	var sels func(depth int, label string) string
@@ -422,13 +427,55 @@ func genSchemaRequest(t *rapid.T) string {
 		b.WriteString("}")
 		return b.String()
 	}
+	defer func() {}()
 	head := rapid.SampledFrom([]string{"", "", "query Q", "query Q($v: Int = 1, $u: [String] = [\"a\"], $in: In = {})", "query Q($v: String, $in: In!)"}).Draw(t, "head")
-	return head + sels(0, "s")
+	body := sels(0, "s")
+	if strings.Contains(body, "...LF") {
+		body += " fragment LF on Lister { x: items(first: " + val(0, "lff") + ") sub { items } }"
+	}
+	return head + body
+}
+
+// inputDefaultGraph writes input types whose field defaults are objects and lists of each other
+// (given, left out or given as null) and a query type taking them: whatever is accepted is then fed
+// {} and [{}] by the probe requests, which makes ggql fill in every default there is.
+func inputDefaultGraph(t *rapid.T) string {
+	names := []string{"A", "B", "C"}[:rapid.IntRange(1, 3).Draw(t, "nInputs")]
+	var b strings.Builder
+	for _, n := range names {
+		fmt.Fprintf(&b, "input %s {", n)
+		for j := 0; j < rapid.IntRange(1, 3).Draw(t, n+"nf"); j++ {
+			fn := string(rune('a' + j))
+			target := rapid.SampledFrom(names).Draw(t, n+fn+"t")
+			typ := rapid.SampledFrom([]string{target, "[" + target + "]", "[" + target + "!]", target + "!", "Int", "String"}).Draw(t, n+fn+"ty")
+			def := ""
+			if typ != "Int" && typ != "String" {
+				inner := rapid.SampledFrom([]string{"{}", "{a: null}", "{a: {}}", "{b: null, a: {a: null}}", "{a: [{}]}"}).Draw(t, n+fn+"in")
+				if strings.HasPrefix(typ, "[") {
+					inner = rapid.SampledFrom([]string{"[" + inner + "]", "[]", "[" + inner + ", " + inner + "]", "[null]"}).Draw(t, n+fn+"li")
+				}
+				def = rapid.SampledFrom([]string{"", " = " + inner, " = " + inner, " = null"}).Draw(t, n+fn+"d")
+			} else if rapid.Bool().Draw(t, n+fn+"sd") {
+				def = " = " + map[string]string{"Int": "1", "String": "\"s\""}[typ]
+			}
+			fmt.Fprintf(&b, " %s: %s%s", fn, typ, def)
+		}
+		b.WriteString(" }\n")
+	}
+	b.WriteString("type Query {")
+	for i, n := range names {
+		fmt.Fprintf(&b, " f%d(x: %s, l: [%s!] = [{}]): Int", i, n, n)
+	}
+	b.WriteString(" }\n")
+	if rapid.IntRange(0, 3).Draw(t, "dirDefault") == 0 {
+		fmt.Fprintf(&b, "directive @dd(p: %s = {}) on OBJECT\n", names[0])
+	}
+	return b.String()
 }
 
 func genInput(t *rapid.T) *Input {
 	in := &Input{Fault: -1}
-	switch kind := rapid.SampledFrom([]string{"exe-soup", "exe-mutated", "exe-mutated", "exe-adversarial", "exe-adversarial", "exe-valid-badvars", "exe-fragment-graph", "exe-fragment-graph", "exe-schema-request", "exe-schema-request", "exe-schema-request", "sdl-soup", "sdl-mutated", "sdl-mutated", "sdl-adversarial", "sdl-adversarial-mutated", "sdl-multi-load", "sdl-directive-graph",
+	switch kind := rapid.SampledFrom([]string{"exe-soup", "exe-mutated", "exe-mutated", "exe-adversarial", "exe-adversarial", "exe-valid-badvars", "exe-fragment-graph", "exe-fragment-graph", "exe-schema-request", "exe-schema-request", "exe-schema-request", "sdl-soup", "sdl-mutated", "sdl-mutated", "sdl-adversarial", "sdl-adversarial-mutated", "sdl-multi-load", "sdl-directive-graph", "sdl-input-defaults",
 		"sdl-valid", "value-soup", "value-bytes", "bytes", "deep-nesting", "writer"}).Draw(t, "kind"); kind {
 	case "exe-fragment-graph":
 		in.Target, in.Text, in.Note = "exe", fragmentGraph(t), kind
@@ -446,6 +493,8 @@ func genInput(t *rapid.T) *Input {
 		in.Target, in.Text, in.Note = "exe", rapid.SampledFrom(validRequests).Draw(t, "valid"), kind
 	case "sdl-directive-graph":
 		in.Target, in.Text, in.Note = "sdl", directiveGraph(t), kind
+	case "sdl-input-defaults":
+		in.Target, in.Text, in.Note = "sdl", inputDefaultGraph(t), kind
 	case "sdl-adversarial":
 		in.Target, in.Text, in.Note = "sdl", rapid.SampledFrom(sdlAdversarial).Draw(t, "sadv"), kind
 	case "sdl-adversarial-mutated":
